@@ -12,6 +12,7 @@ import (
 	"fmt"
 	"io"
 	"sort"
+	"strings"
 	"testing"
 	"testing/synctest"
 	"time"
@@ -253,15 +254,30 @@ func c02Run(t *testing.T, ops []string, o *Out) {
 			}
 			switch name {
 			case "new":
-				f, err := lcKinds[a["kind"]]()
-				if err != nil {
-					o.P("err:new")
-					return
+				// `kind=a+b+c`: a chain of the named interceptors (first = innermost reader, outermost writer)
+				var members []interceptor.Interceptor
+				for _, k := range strings.Split(a["kind"], "+") {
+					mk := lcKinds[k]
+					if mk == nil {
+						o.P("err:new")
+						return
+					}
+					f, err := mk()
+					if err != nil {
+						o.P("err:new")
+						return
+					}
+					ic, err := f.NewInterceptor("c02")
+					if err != nil {
+						o.P("err:new")
+						return
+					}
+					members = append(members, ic)
 				}
-				s.ic, err = f.NewInterceptor("c02")
-				if err != nil {
-					o.P("err:new")
-					return
+				if len(members) == 1 {
+					s.ic = members[0]
+				} else {
+					s.ic = interceptor.NewChain(members)
 				}
 				s.kind = a["kind"]
 				s.ic.BindRTCPWriter(interceptor.RTCPWriterFunc(func([]rtcp.Packet, interceptor.Attributes) (int, error) { return 0, nil }))
@@ -346,7 +362,7 @@ func c02Run(t *testing.T, ops []string, o *Out) {
 	})
 }
 
-func (s *c02State) jitter() bool { return s.kind == "jitter" }
+func (s *c02State) jitter() bool { return strings.Contains(s.kind, "jitter") }
 
 func init() {
 	register("rawbytes", &Comp{
@@ -362,6 +378,27 @@ func init() {
 			kinds := c02Kinds()
 			kind := kinds[idx%len(kinds)]
 			cls := []string{"valid", "mutated", "random", "outgoing"}[(idx/len(kinds))%4]
+			// every other round of the kinds: the interceptor sits in a chain with one or two others (what one
+			// member leaves in the attributes, the buffer or the header is what the next one works on)
+			label := kind
+			chained := (idx/(4*len(kinds)))%2 == 1
+			if chained {
+				extra := []string{kinds[r.Intn(len(kinds))]}
+				if r.Bool() {
+					extra = append(extra, kinds[r.Intn(len(kinds))])
+				}
+				pos := r.Intn(len(extra) + 1)
+				all := append(append(append([]string{}, extra[:pos]...), kind), extra[pos:]...)
+				if r.Chance(1, 3) {
+					// a member that hands on a different packet than the one it read, between two others
+					all = []string{kind, "jitter", extra[0]}
+					if r.Bool() {
+						all = []string{extra[0], "jitter", kind}
+					}
+				}
+				kind = strings.Join(all, "+")
+				label = "chain"
+			}
 			ops := []string{"new kind=" + kind}
 			var ssrcSeq map[uint32]int
 			burstLen := 0
@@ -369,20 +406,33 @@ func init() {
 			if cls == "outgoing" {
 				nops = r.Range(8, 18)
 			}
+			seqRun := -1
+			if strings.Contains(kind, "jitter") && cls != "outgoing" && r.Bool() {
+				nops = r.Range(40, 70) // enough packets for the jitter buffer to start emitting
+				seqRun = r.Pick(0, 65500, 30000)
+			}
+			// consecutive sequence numbers (the probes in between use other numbers)
+			run := func(b []byte) []byte {
+				if seqRun >= 0 && len(b) >= 4 {
+					b[2], b[3] = byte(seqRun>>8), byte(seqRun)
+					seqRun = (seqRun + 1) & 0xFFFF
+				}
+				return b
+			}
 			for i := 0; i < nops; i++ {
 				ssrc := uint32(r.Range(1, 2))
 				switch cls {
 				case "valid":
-					if r.Bool() {
+					if r.Bool() && (seqRun < 0 || r.Chance(1, 4)) {
 						ops = append(ops, fmt.Sprintf("rtcp b=%s", hexs(c02ValidRTCP(r, ssrc))))
 					} else {
-						ops = append(ops, fmt.Sprintf("rtp ssrc=%d b=%s stale=%d", ssrc, hexs(c02ValidRTP(r, ssrc)), r.Intn(2)))
+						ops = append(ops, fmt.Sprintf("rtp ssrc=%d b=%s stale=%d", ssrc, hexs(run(c02ValidRTP(r, ssrc))), r.Intn(2)))
 					}
 				case "mutated":
 					if r.Bool() {
 						ops = append(ops, fmt.Sprintf("rtcp b=%s", hexs(c02Mutate(r, c02ValidRTCP(r, ssrc)))))
 					} else {
-						ops = append(ops, fmt.Sprintf("rtp ssrc=%d b=%s stale=%d", ssrc, hexs(c02Mutate(r, c02ValidRTP(r, ssrc))), r.Intn(2)))
+						ops = append(ops, fmt.Sprintf("rtp ssrc=%d b=%s stale=%d", ssrc, hexs(c02Mutate(r, run(c02ValidRTP(r, ssrc)))), r.Intn(2)))
 					}
 				case "random":
 					b := make([]byte, r.Pick(0, 1, 2, 4, 7, 8, 12, 16, 33, 200, 1500))
@@ -414,7 +464,7 @@ func init() {
 				}
 			}
 			ops = append(ops, "end")
-			return Case{Class: kind + "-" + cls, Ops: ops}
+			return Case{Class: label + "-" + cls, Ops: ops}
 		},
 		Run: c02Run,
 	})
